@@ -47,13 +47,17 @@ func dtLint(main string, mods map[string]string) ([]string, bool) {
 	for _, e := range l.Errors {
 		out = append(out, string(e.Rule)+"|"+string(e.Severity)+"|"+e.Message)
 	}
+	if l.FatalError != nil {
+		out = append(out, "fatal|ERROR|a module does not parse")
+	}
 	sort.Strings(out)
 	return out, true
 }
 
 // VerifIncludeGraph: every include graph over the main file and two modules
 // (each includes nothing, itself, the other module, the main file or a
-// missing module; at root level or inside a subroutine) is linted to the end;
+// missing module; at root level or inside a subroutine, there directly or
+// from an if / else / switch block of the module) is linted to the end;
 // a missing module yields a diagnostic.
 func VerifIncludeGraph() {
 	targets := []string{"", "m1", "m2", "main", "missing"}
@@ -65,6 +69,17 @@ func VerifIncludeGraph() {
 				return "set req.http." + name + " = \"1\";\n", t
 			}
 			return "sub s_" + name + " {\n  esi;\n}\n", t
+		}
+		if inSub && name != "main" {
+			// in a module included at statement level the include may sit in a nested block
+			switch nondet.Choice("nest_"+name, 4) {
+			case 1:
+				return "if (req.http.a) {\n  include \"" + t + "\";\n}\n", t
+			case 2:
+				return "if (req.http.a) {\n  esi;\n} else {\n  include \"" + t + "\";\n}\n", t
+			case 3:
+				return "switch (req.http.a) {\ncase \"1\":\n  include \"" + t + "\";\n  break;\n}\n", t
+			}
 		}
 		return "include \"" + t + "\";\n", t
 	}
@@ -100,7 +115,7 @@ func VerifIncludeGraph() {
 	if reach {
 		found := false
 		for _, d := range got {
-			if strings.Contains(d, "missing") {
+			if strings.Contains(d, "missing") || strings.HasPrefix(d, "fatal|") { // (a module the snippet parser refuses ends the run with its own error)
 				found = true
 			}
 		}
